@@ -39,6 +39,7 @@ type wireCase struct {
 type c10env struct {
 	scheme string
 	cache  bool
+	fetchable *hotstuff.Block
 	n, q   int
 	nodes  []*hx.Node
 	r      *hx.Node // replica under test (id 2)
@@ -107,12 +108,40 @@ func newC10Env(scheme string, cache bool, state string, rng *rand.Rand, kauri bo
 	}
 	srv := server.NewServer(e.r.EL, hx.Quiet{}, e.r.Cfg, e.r.BC)
 	e.svc = server.VerifService(srv)
+	if kauri {
+		e.r.Deliver(hotstuff.ReplicaConnectedEvent{}) // Kauri builds its tree on this event; without it no aggregation round starts
+	}
 	e.r.Start()
 	// a block every replica knows, certified by a quorum
 	g := hotstuff.GetGenesis()
 	e.known = hotstuff.NewBlock(g.Hash(), hotstuff.NewQuorumCert(nil, 0, g.Hash()), &clientpb.Batch{Commands: []*clientpb.Command{{ClientID: 3, SequenceNumber: 1}}}, 1, 2)
+	if kauri {
+		// R leads view 1: its own proposal opens the aggregation round; contributions are votes for that block
+		for _, om := range e.r.Out {
+			if m, ok := om.Msg.(hotstuff.ProposeMsg); ok {
+				e.known = m.Block
+			}
+		}
+	}
 	for _, x := range nodes {
 		x.BC.Store(e.known)
+	}
+	// a block only the peers have: R can fetch it
+	e.fetchable = hotstuff.NewBlock(g.Hash(), hotstuff.NewQuorumCert(nil, 0, g.Hash()), &clientpb.Batch{Commands: []*clientpb.Command{{ClientID: 3, SequenceNumber: 2}}}, e.known.View()+1, 3)
+	for _, x := range nodes {
+		if x.ID != e.r.ID {
+			x.BC.Store(e.fetchable)
+		}
+	}
+	e.r.Fetch = func(by hotstuff.ID, h hotstuff.Hash) (*hotstuff.Block, bool) {
+		for _, x := range nodes {
+			if x.ID != by {
+				if b, ok := x.BC.LocalGet(h); ok {
+					return b, true
+				}
+			}
+		}
+		return nil, false
 	}
 	switch state {
 	case "midrun": // R has seen a certificate for the known block and moved on
@@ -239,6 +268,9 @@ func (e *c10env) hash(class string) []byte {
 	case "known":
 		h := e.known.Hash()
 		return h[:]
+	case "fetchable":
+		h := e.fetchable.Hash()
+		return h[:]
 	}
 	b := make([]byte, 32)
 	e.rng.Read(b)
@@ -352,7 +384,11 @@ func (e *c10env) apply(c wireCase) (pan string) {
 	}
 	switch m["rpc"].(string) {
 	case "vote":
-		e.svc.Vote(ctxFrom(from), &hotstuffpb.PartialCert{Sig: e.sig(m["sig"].(string), e.known.ToBytes(), from), Hash: e.hash(m["hash"].(string))})
+		content := e.known.ToBytes()
+		if m["hash"].(string) == "fetchable" {
+			content = e.fetchable.ToBytes()
+		}
+		e.svc.Vote(ctxFrom(from), &hotstuffpb.PartialCert{Sig: e.sig(m["sig"].(string), content, from), Hash: e.hash(m["hash"].(string))})
 	case "newview":
 		e.svc.NewView(ctxFrom(from), e.syncInfo(m["si"].(map[string]any), from))
 	case "timeout":
@@ -389,10 +425,25 @@ func (e *c10env) apply(c wireCase) (pan string) {
 	case "fetch":
 		_, _ = e.svc.RequestBlock(ctxFrom(from), &hotstuffpb.BlockHash{Hash: e.hash(m["hash"].(string))})
 	case "contribution":
-		v := map[string]uint64{"zero": 0, "cur": uint64(e.r.VS.View()), "max": ^uint64(0)}[m["view"].(string)]
+		// "cur": the view of the aggregation round the node is in (contributions for other views are ignored at once)
+		cur := uint64(e.r.VS.View())
+		if e.r.Kauri != nil {
+			cur = uint64(e.r.Kauri.VerifView())
+		}
+		v := map[string]uint64{"zero": 0, "cur": cur, "max": ^uint64(0)}[m["view"].(string)]
 		e.r.EL.AddEvent(&kauripb.Contribution{ID: uint32(from), View: v, Signature: e.sig(m["sig"].(string), e.known.ToBytes(), from)})
 	}
 	e.r.Drain()
+	return ""
+}
+
+func (e *c10env) settle() (pan string) {
+	defer func() {
+		if x := recover(); x != nil {
+			pan = fmt.Sprint(x) + " @ " + panicSite()
+		}
+	}()
+	e.r.Deliver(hotstuff.ProposeMsg{ID: e.known.Proposer(), Block: e.known})
 	return ""
 }
 
@@ -471,9 +522,8 @@ func c10(args []string) error {
 					return err
 				}
 				sinceNew = 0
-				if kauri {
-					// the node is in a Kauri round for the known block
-					env.r.Deliver(hotstuff.ReplicaConnectedEvent{})
+				if kauri && env.r.Kauri.VerifView() == 0 {
+					return fmt.Errorf("c10: the Kauri node is not in an aggregation round (the contribution cases would be vacuous)")
 				}
 			}
 			sinceNew++
@@ -484,8 +534,18 @@ func c10(args []string) error {
 				post = env.proj()
 			}
 			changed := fmt.Sprint(pre) != fmt.Sprint(post)
-			o.emit(obj{"id": c.ID, "rpc": c.M["rpc"], "scheme": scheme, "cache": cacheOn == 1, "state": state, "agg": aggOn == 1, "verifies": c.Verifies,
-				"panic": pan, "changed": changed, "case": c.M, "pre": pre, "post": post})
+			if pan == "" {
+				// settle: events the message left deferred (votes waiting for a proposal, proposals waiting for a view change) are
+				// released by a proposal the replica ignores (it voted in that view already); a crash then belongs to this message
+				pan = env.settle()
+			}
+			line := obj{"id": c.ID, "rpc": c.M["rpc"], "scheme": scheme, "cache": cacheOn == 1, "state": state, "agg": aggOn == 1, "verifies": c.Verifies,
+				"panic": pan, "changed": changed, "case": c.M, "pre": pre, "post": post}
+			if kauri && pan == "" {
+				// (non-vacuity of the Kauri part: the round the node is in and what it has aggregated so far)
+				line["kauriView"], line["kauriAgg"] = int(env.r.Kauri.VerifView()), len(env.r.Kauri.VerifAgg())
+			}
+			o.emit(line)
 			if pan != "" {
 				env = nil
 			}
